@@ -256,4 +256,273 @@ theorem cmpValsSameKind_exact (op : CmpOp) (l r : Value) (x y : Ext)
   · subst hl; subst hr; simp [cmpValsSameKind, i64cmp_exact]
   · simp [cmpValsSameKind, F.cmp_exact _ _ _ _ hl hr]
 
+/-! ## C11: evaluation neither panics nor diverges -/
+
+
+@[simp] theorem Res.safe_val (v : Value) : (Res.val v).safe := trivial
+@[simp] theorem Res.safe_none : Res.none.safe := trivial
+@[simp] theorem Res.safe_panic : ¬ Res.panic.safe := fun h => h
+@[simp] theorem Res.safe_diverge : ¬ Res.diverge.safe := fun h => h
+
+theorem Res.safe_ofOption (o : Option Value) : (Res.ofOption o).safe := by
+  cases o <;> simp [Res.ofOption]
+
+theorem Res.bind_safe (r : Res) (k : Value → Res) (hr : r.safe) (hk : ∀ v, (k v).safe) : (r.bind k).safe := by
+  cases r <;> simp_all [Res.bind]
+
+theorem cmpVals_safe (op : CmpOp) (l r : Value) : (cmpVals .fixed op l r).safe := by
+  unfold cmpVals; split <;> simp
+
+theorem binop_safe (fo : FOps) (op : BinOp) (l r : Value) : (binop fo .fixed op l r).safe := by
+  unfold binop
+  split <;> (try split) <;> (try split) <;> simp_all [iadd, isub, imul, idiv, irem, cmpVals_safe]
+
+theorem unop_safe (op : UnOp) (v : Value) : (unop .fixed op v).safe := by
+  unfold unop; split <;> simp [ineg]
+
+
+theorem sliceP_some {α : Type} (xs : List α) (s e : Nat) (h : s ≤ e ∧ e ≤ xs.length) :
+    ∃ ys, sliceP xs s e = some ys := by
+  unfold sliceP; rw [if_pos h]; exact ⟨_, rfl⟩
+
+theorem indexVal_safe (c i : Value) : (indexVal c i).safe := by
+  unfold indexVal; split <;> simp [Res.safe_ofOption]
+
+theorem iabs_safe (n : Int64) : (iabs .fixed n).safe := by
+  unfold iabs; split <;> simp [ineg]
+
+theorem sliceCore_safe {α : Type} (xs : List α) (start : Nat) (endB : Nat → Res ⊕ Nat) (mk : List α → Value)
+    (h : ∀ n r, endB n = .inl r → r.safe) : (sliceCore xs start endB mk).safe := by
+  unfold sliceCore
+  split
+  · rename_i r hr; exact h _ _ hr
+  · split
+    · rename_i hle
+      obtain ⟨ys, hys⟩ := sliceP_some xs start _ ⟨hle, Nat.min_le_right _ _⟩
+      rw [hys]; simp
+    · simp
+
+theorem sliceVal_safe (c : Value) (start : Nat) (endB : Nat → Res ⊕ Nat)
+    (h : ∀ n r, endB n = .inl r → r.safe) : (sliceVal c start endB).safe := by
+  unfold sliceVal
+  split
+  · exact sliceCore_safe _ _ _ _ h
+  · exact sliceCore_safe _ _ _ _ h
+  · simp
+
+theorem boundOf_safe (r : Option Res) (d : Nat) (h : ∀ x, r = some x → x.safe) :
+    ∀ y, boundOf r d = .inl y → y.safe := by
+  intro y hy
+  cases r with
+  | none => simp [boundOf] at hy
+  | some x =>
+    have hx := h x rfl
+    cases x with
+    | val v => cases hv : v.asInt <;> simp [boundOf, hv] at hy
+    | none => simp [boundOf] at hy
+    | panic => simp at hx
+    | diverge => simp at hx
+
+theorem collect_safe (rs : List Res) (h : ∀ r ∈ rs, r.safe) :
+    (∃ vs, collect rs = .vals vs) := by
+  induction rs with
+  | nil => exact ⟨[], rfl⟩
+  | cons r rs ih =>
+    have hr := h r (by simp)
+    obtain ⟨vs, hvs⟩ := ih (fun x hx => h x (by simp [hx]))
+    cases r with
+    | val v => exact ⟨v :: vs, by simp [collect, hvs]⟩
+    | none => exact ⟨vs, by simp [collect, hvs]⟩
+    | panic => simp at hr
+    | diverge => simp at hr
+
+theorem collectMap_safe (ks : List String) (rs : List Res) (acc : List (String × Value))
+    (h : ∀ r ∈ rs, r.safe) : (collectMap ks rs acc).safe := by
+  induction rs generalizing ks acc with
+  | nil => cases ks <;> simp [collectMap]
+  | cons r rs ih =>
+    cases ks with
+    | nil => simp [collectMap]
+    | cons k ks =>
+      have hr := h r (by simp)
+      have ih' := fun acc => ih ks acc (fun x hx => h x (by simp [hx]))
+      cases r with
+      | val v => simp [collectMap, ih']
+      | none => simp [collectMap, ih']
+      | panic => simp at hr
+      | diverge => simp at hr
+
+theorem evalMember_safe (env : Env) (obj : Expr) (m : String) : (evalMember env obj m).safe := by
+  unfold evalMember
+  split
+  · split
+    · exact Res.safe_ofOption _
+    · simp only []
+      split
+      · simp
+      · split
+        · simp
+        · split
+          · simp
+          · split
+            · exact Res.safe_ofOption _
+            · simp
+  · simp
+
+
+theorem lookup_mem {β : Type} (l : List (String × β)) (k : String) (v : β) (h : l.lookup k = some v) :
+    (k, v) ∈ l := by
+  induction l with
+  | nil => simp [List.lookup] at h
+  | cons p ps ih =>
+    obtain ⟨k', v'⟩ := p
+    simp only [List.lookup] at h
+    split at h
+    · rename_i heq
+      have : k = k' := by simpa using heq
+      simp at h; subst h; subst this; simp
+    · exact List.mem_cons_of_mem _ (ih h)
+
+theorem substrCore_safe (s : String) (a b : Nat) : (substrCore s a b).safe := by
+  unfold substrCore
+  split
+  · rename_i h
+    obtain ⟨ys, hys⟩ := sliceP_some s.toList a b h
+    rw [hys]; simp
+  · simp
+
+theorem setP_safe (xs : List Value) (i : Nat) (v : Value) (h : i < xs.length) : (setP xs i v).safe := by
+  simp [setP, h]
+
+theorem bIs_safe (p : Value → Bool) (args : List Value) : (bIs p args).safe := by
+  unfold bIs; split <;> simp
+
+theorem builtinTable_safe (fo : FOps) : ∀ p ∈ builtinTable fo .fixed, ∀ args, (p.2 args).safe := by
+  intro p hp args
+  simp only [builtinTable, List.mem_cons, List.mem_nil_iff, or_false] at hp
+  rcases hp with h | h | h | h | h | h | h | h | h | h | h | h | h | h | h | h | h | h | h | h | h | h | h | h | h | h | h | h | h | h | h | h | h | h <;> subst h <;> simp only []
+  · unfold bAbs; split <;> simp [iabs_safe]
+  · unfold bSqrt; split <;> simp
+  · unfold bFloor; split <;> simp
+  · unfold bCeil; split <;> simp
+  · unfold bRound; split <;> simp
+  · unfold bPow; split <;> simp
+  · unfold bMin; split <;> simp
+  · unfold bMax; split <;> simp
+  · unfold bLen; split <;> simp
+  · unfold bFirst; split <;> simp [Res.safe_ofOption]
+  · unfold bLast; split <;> simp [Res.safe_ofOption]
+  · unfold bPush; split <;> simp
+  · unfold bPop; split <;> (try split) <;> simp
+  · unfold bReverse; split <;> simp
+  · unfold bContains; split <;> simp
+  · unfold bKeys; split <;> simp
+  · unfold bValues; split <;> simp
+  · unfold bGet; split <;> simp [Res.safe_ofOption]
+  · unfold bSet; split
+    · split
+      · rename_i h; exact setP_safe _ _ _ h
+      · simp
+    · simp
+    · simp
+  · unfold bSum; split <;> simp
+  · unfold bAvg; split <;> (try split) <;> simp
+  · unfold bToInt; split <;> simp [Res.safe_ofOption]
+  · unfold bToFloat; split <;> simp
+  · unfold bStartsWith; split <;> simp
+  · unfold bEndsWith; split <;> simp
+  · unfold bSubstring; split <;> simp [substrCore_safe]
+  · unfold bTypeOf; split <;> simp
+  all_goals exact bIs_safe _ _
+
+theorem builtin_safe (fo : FOps) (name : String) (args : List Value) : (builtin fo .fixed name args).safe := by
+  unfold builtin
+  split
+  · rename_i f hf
+    exact builtinTable_safe fo (name, f) (lookup_mem _ _ _ hf) args
+  · simp
+
+
+mutual
+theorem eval_safe (fo : FOps) (env : Env) : ∀ e : Expr, (eval fo .fixed env e).safe
+  | .ident x => by simp only [eval]; split <;> simp [Res.safe_ofOption]
+  | .null => by simp [eval]
+  | .int _ => by simp [eval]
+  | .float _ => by simp [eval]
+  | .str _ => by simp [eval]
+  | .bool _ => by simp [eval]
+  | .dur _ => by simp [eval]
+  | .arr xs => by
+    obtain ⟨vs, hvs⟩ := collect_safe _ (evalAll_safe fo env xs)
+    simp [eval, hvs]
+  | .map ks vs => by
+    simp only [eval]; exact collectMap_safe _ _ _ (evalAll_safe fo env vs)
+  | .index c i => by
+    simp only [eval]
+    exact Res.bind_safe _ _ (eval_safe fo env c) fun cv =>
+      Res.bind_safe _ _ (eval_safe fo env i) fun iv => indexVal_safe cv iv
+  | .slice c s en => by
+    simp only [eval]
+    refine Res.bind_safe _ _ (eval_safe fo env c) fun cv => ?_
+    have hs := boundOf_safe (evalOpt fo .fixed env s) 0 (evalOpt_safe fo env s)
+    split
+    · rename_i r hr; exact hs r hr
+    · exact sliceVal_safe _ _ _ (fun n r hr => boundOf_safe (evalOpt fo .fixed env en) n (evalOpt_safe fo env en) r hr)
+  | .range s e incl => by
+    have h1 : ((eval fo .fixed env s).bind fun v => Res.ofOption (v.asInt.map Value.int)).safe :=
+      Res.bind_safe _ _ (eval_safe fo env s) fun v => Res.safe_ofOption _
+    have h2 : ((eval fo .fixed env e).bind fun v => Res.ofOption (v.asInt.map Value.int)).safe :=
+      Res.bind_safe _ _ (eval_safe fo env e) fun v => Res.safe_ofOption _
+    simp only [eval]
+    split
+    · split
+      · simp
+      · exact h2
+    · exact h1
+  | .coalesce e d => by
+    have he := eval_safe fo env e
+    have hd := eval_safe fo env d
+    simp only [eval]
+    split <;> assumption
+  | .member obj m => by simp only [eval]; exact evalMember_safe env obj m
+  | .call f args => by
+    simp only [eval]
+    split
+    · obtain ⟨vs, hvs⟩ := collect_safe _ (evalAll_safe fo env args)
+      rw [hvs]; exact builtin_safe fo _ vs
+    · simp
+  | .bin op l r => by
+    simp only [eval]
+    exact Res.bind_safe _ _ (eval_safe fo env l) fun lv =>
+      Res.bind_safe _ _ (eval_safe fo env r) fun rv => binop_safe fo op lv rv
+  | .un op e => by
+    simp only [eval]
+    exact Res.bind_safe _ _ (eval_safe fo env e) fun v => unop_safe op v
+  | .ite c t e => by
+    simp only [eval]
+    refine Res.bind_safe _ _ (eval_safe fo env c) fun cv => ?_
+    split
+    · exact eval_safe fo env t
+    · exact eval_safe fo env e
+  | .ts _ => by simp [eval]
+  | .optMember _ _ => by simp [eval]
+  | .lambda _ _ => by simp [eval]
+  | .block _ _ _ => by simp [eval]
+theorem evalAll_safe (fo : FOps) (env : Env) : ∀ es : List Expr, ∀ r ∈ evalAll fo .fixed env es, r.safe
+  | [] => by simp [evalAll]
+  | e :: es => by
+    intro r hr
+    simp only [evalAll, List.mem_cons] at hr
+    rcases hr with h | h
+    · rw [h]; exact eval_safe fo env e
+    · exact evalAll_safe fo env es r h
+theorem evalOpt_safe (fo : FOps) (env : Env) : ∀ o : Option Expr, ∀ x, evalOpt fo .fixed env o = some x → x.safe
+  | Option.none => by simp [evalOpt]
+  | some e => by
+    intro x hx
+    simp only [evalOpt, Option.some.injEq] at hx
+    rw [← hx]; exact eval_safe fo env e
+end
+
+
 end Varpulis.Expr
